@@ -23,6 +23,15 @@ func Root() string {
 	return "/verif"
 }
 
+// OutRoot is where evidence and replay files go: /verif normally, a scratch directory when the check is
+// pointed at a scratch copy of the repository (self-tests), so that real evidence is never overwritten.
+func OutRoot() string {
+	if r := os.Getenv("VERIF_OUT"); r != "" {
+		return r
+	}
+	return Root()
+}
+
 type Finding struct {
 	Kind     string `json:"kind"` // "finding" or "fixed"
 	Property string `json:"property"`
@@ -63,6 +72,7 @@ func New(id, tier, level string) *Ctx {
 	seed, _ := strconv.ParseInt(os.Getenv("VERIF_SEED"), 10, 64)
 	c := &Ctx{ID: id, Tier: tier, Level: level, Seed: seed, start: time.Now(), Cov: map[string]any{},
 		viol: map[string]*violation{}, knownHit: map[int]int{}, counters: map[string]int64{}, maxSamples: 6, MaxReplays: 8}
+	os.RemoveAll(filepath.Join(OutRoot(), "replays", id))
 	b, err := os.ReadFile(filepath.Join(Root(), "known_findings.json"))
 	if err == nil {
 		var all []Finding
@@ -124,7 +134,7 @@ func (c *Ctx) Violation(key, what string, replay any) {
 	c.viol[key] = v
 	c.violOrder = append(c.violOrder, key)
 	if len(c.violOrder) <= c.MaxReplays {
-		dir := filepath.Join(Root(), "replays", c.ID)
+		dir := filepath.Join(OutRoot(), "replays", c.ID)
 		os.MkdirAll(dir, 0o755)
 		h := sha256.Sum256([]byte(key))
 		path := filepath.Join(dir, hex.EncodeToString(h[:6])+".json")
@@ -207,7 +217,7 @@ func (c *Ctx) Finish() int {
 		ev["assumptions"] = []string{}
 	}
 	b, _ := json.MarshalIndent(ev, "", " ")
-	dir := filepath.Join(Root(), "evidence")
+	dir := filepath.Join(OutRoot(), "evidence")
 	os.MkdirAll(dir, 0o755)
 	if err := os.WriteFile(filepath.Join(dir, c.ID+".json"), append(b, '\n'), 0o644); err != nil {
 		fmt.Fprintln(os.Stderr, "cannot write evidence:", err)
